@@ -20,6 +20,11 @@ int main(int argc, char** argv) {
     fprintf(stderr, "usage: vp_harness <ID> [options]\n");
     return 2;
   }
+  if (!strcmp(argv[1], "--list-ops")) {
+    extern void vp_list_ops(void);
+    vp_list_ops();
+    return 0;
+  }
   G.prop = argv[1];
   G.seed = 1;
   G.part = 0;
